@@ -3,7 +3,7 @@ import itertools
 from explore import Job, run_jobs, generic_search, replay_with_monitor, impl_step
 from streamlib import StreamInst
 import c03lib as L
-from c03lib import reduce_garbage as RG
+from c03lib import reduce_garbage as RG, declared_widths as DW
 from litex.soc.interconnect import stream
 from litex.soc.interconnect.stream import EndpointDescription as ED
 
@@ -52,31 +52,31 @@ def mk_up(r, nb, rev, raw=True, tokens=None):
     """_UpConverter (raw=True: valid_token_count visible) or Converter without the count."""
     m = stream._UpConverter(nb, nb * r, r, rev) if raw else stream.Converter(nb, nb * r, reverse=rev)
     name = "%s(%d->%d%s)" % ("_UpConverter" if raw else "Converter", nb, nb * r, ",reverse" if rev else "")
-    return RG(StreamInst(name, m, "up %d %d 0 %d %d" % (r, nb, b(rev), b(raw)), tokens=tokens or toks(nb),
-                         spec=lambda: L.UpScoreboard(r, nb, 0, rev, vtc=raw)))
+    return DW(RG(StreamInst(name, m, "up %d %d 0 %d %d" % (r, nb, b(rev), b(raw)), tokens=tokens or toks(nb),
+                            spec=lambda: L.UpScoreboard(r, nb, 0, rev, vtc=raw))), nb)
 
 
 def mk_down(r, nb, rev, raw=True, tokens=None):
     m = stream._DownConverter(nb * r, nb, r, rev) if raw else stream.Converter(nb * r, nb, reverse=rev)
     name = "%s(%d->%d%s)" % ("_DownConverter" if raw else "Converter", nb * r, nb, ",reverse" if rev else "")
-    return RG(StreamInst(name, m, "down %d %d 0 %d %d" % (r, nb, b(rev), b(raw)), tokens=tokens or toks(nb * r),
-                         spec=lambda: L.DownScoreboard(r, nb, 0, rev, vtc=raw)))
+    return DW(RG(StreamInst(name, m, "down %d %d 0 %d %d" % (r, nb, b(rev), b(raw)), tokens=tokens or toks(nb * r),
+                            spec=lambda: L.DownScoreboard(r, nb, 0, rev, vtc=raw))), nb * r)
 
 
 def mk_pack(n, nb, pw, rev, tokens=None):
     d = ED([("data", nb)], [("p", pw)] if pw else [])
     m = stream.Pack(d, n, reverse=rev)
     name = "Pack(%db%s,n=%d%s)" % (nb, "+p%d" % pw if pw else "", n, ",reverse" if rev else "")
-    return RG(StreamInst(name, m, "up %d %d %d %d 0" % (n, nb, pw, b(rev)), tokens=tokens or toks(nb + pw),
-                         spec=lambda: L.UpScoreboard(n, nb, pw, rev)))
+    return DW(RG(StreamInst(name, m, "up %d %d %d %d 0" % (n, nb, pw, b(rev)), tokens=tokens or toks(nb + pw),
+                            spec=lambda: L.UpScoreboard(n, nb, pw, rev))), nb + pw)
 
 
 def mk_unpack(n, nb, pw, rev, tokens=None):
     d = ED([("data", nb)], [("p", pw)] if pw else [])
     m = stream.Unpack(n, d, reverse=rev)
     name = "Unpack(n=%d,%db%s%s)" % (n, nb, "+p%d" % pw if pw else "", ",reverse" if rev else "")
-    return RG(StreamInst(name, m, "down %d %d %d %d 0" % (n, nb, pw, b(rev)), tokens=tokens or toks(n * nb + pw),
-                         spec=lambda: L.DownScoreboard(n, nb, pw, rev)))
+    return DW(RG(StreamInst(name, m, "down %d %d %d %d 0" % (n, nb, pw, b(rev)), tokens=tokens or toks(n * nb + pw),
+                            spec=lambda: L.DownScoreboard(n, nb, pw, rev))), n * nb + pw)
 
 
 def mk_stride(up, r, ws, pw, rev, tokens=None):
@@ -86,14 +86,14 @@ def mk_stride(up, r, ws, pw, rev, tokens=None):
     wtxt = " ".join(map(str, ws))
     if up:
         m = stream.StrideConverter(narrow, wide, reverse=rev)
-        return RG(StreamInst("StrideConverter(up x%d,%s+p%d%s)" % (r, ws, pw, ",reverse" if rev else ""), m,
-                             "strideup %d %d %d %s" % (r, pw, b(rev), wtxt),
-                             tokens=tokens or toks(nb + pw),
-                             spec=lambda: L.UpScoreboard(r, nb, pw, rev, lane_of=stride_lane(ws, r))))
+        return DW(RG(StreamInst("StrideConverter(up x%d,%s+p%d%s)" % (r, ws, pw, ",reverse" if rev else ""), m,
+                                "strideup %d %d %d %s" % (r, pw, b(rev), wtxt),
+                                tokens=tokens or toks(nb + pw),
+                                spec=lambda: L.UpScoreboard(r, nb, pw, rev, lane_of=stride_lane(ws, r)))), nb + pw)
     m = stream.StrideConverter(wide, narrow, reverse=rev)
-    return RG(StreamInst("StrideConverter(down /%d,%s+p%d%s)" % (r, ws, pw, ",reverse" if rev else ""), m,
-                         "stridedown %d %d %d %s" % (r, pw, b(rev), wtxt), tokens=tokens or toks(nb * r + pw),
-                         spec=lambda: L.DownScoreboard(r, nb, pw, rev, lane_of=stride_lane(ws, r))))
+    return DW(RG(StreamInst("StrideConverter(down /%d,%s+p%d%s)" % (r, ws, pw, ",reverse" if rev else ""), m,
+                            "stridedown %d %d %d %s" % (r, pw, b(rev), wtxt), tokens=tokens or toks(nb * r + pw),
+                            spec=lambda: L.DownScoreboard(r, nb, pw, rev, lane_of=stride_lane(ws, r)))), nb * r + pw)
 
 
 def gb_tokens(i):
@@ -106,47 +106,47 @@ def gb_tokens(i):
 
 def mk_gearbox(i, o, msb, tokens=None):
     m = stream.Gearbox(i, o, msb_first=msb)
-    return RG(StreamInst("Gearbox(%d,%d,%s)" % (i, o, "msb" if msb else "lsb"), m,
-                         "gearbox %d %d %d" % (i, o, b(msb)), tokens=tokens or toks(i, flags=False),
-                         spec=lambda: L.GearboxScoreboard(i, o, msb)))
+    return DW(RG(StreamInst("Gearbox(%d,%d,%s)" % (i, o, "msb" if msb else "lsb"), m,
+                            "gearbox %d %d %d" % (i, o, b(msb)), tokens=tokens or toks(i, flags=False),
+                            spec=lambda: L.GearboxScoreboard(i, o, msb))), i)
 
 
 def mk_gate(nb, srd, tokens=None):
     m = stream.Gate([("data", nb)], sink_ready_when_disabled=srd)
-    return RG(StreamInst("Gate(%db,srd=%d)" % (nb, b(srd)), m, "gate %d" % b(srd), tokens=tokens or toks(nb),
-                         extra_inputs=[m.enable], extra_alphabet=[(0,), (1,)],
-                         spec=lambda: L.GateScoreboard(srd)))
+    return DW(RG(StreamInst("Gate(%db,srd=%d)" % (nb, b(srd)), m, "gate %d" % b(srd), tokens=tokens or toks(nb),
+                            extra_inputs=[m.enable], extra_alphabet=[(0,), (1,)],
+                            spec=lambda: L.GateScoreboard(srd))), nb, [2])
 
 
 def mk_delay(nb, n, tokens=None):
     m = stream.Delay([("data", nb)], n)
-    return StreamInst("Delay(%db,%d)" % (nb, n), m, "delay %d" % n, tokens=tokens, capacity=n)
+    return DW(StreamInst("Delay(%db,%d)" % (nb, n), m, "delay %d" % n, tokens=tokens, capacity=n), nb)
 
 
 def mk_cast(ws_from, ws_to, rf, rt):
     m = stream.Cast([("a%d" % k, w) for k, w in enumerate(ws_from)], [("x%d" % k, w) for k, w in enumerate(ws_to)],
                     reverse_from=rf, reverse_to=rt)
     n = sum(ws_from)
-    return RG(StreamInst("Cast(%s->%s,%d,%d)" % (ws_from, ws_to, b(rf), b(rt)), m,
-                         "cast %d %d %d %s" % (b(rf), b(rt), len(ws_from), " ".join(map(str, ws_from + ws_to))),
-                         tokens=toks(n),
-                         spec=lambda: L.MapScoreboard(L.cast_fn(ws_from, ws_to, rf, rt))))
+    return DW(RG(StreamInst("Cast(%s->%s,%d,%d)" % (ws_from, ws_to, b(rf), b(rt)), m,
+                            "cast %d %d %d %s" % (b(rf), b(rt), len(ws_from), " ".join(map(str, ws_from + ws_to))),
+                            tokens=toks(n),
+                            spec=lambda: L.MapScoreboard(L.cast_fn(ws_from, ws_to, rf, rt)))), n)
 
 
 def mk_shifter(dw, tokens=None):
     m = stream.Shifter(dw)
-    nsh = 1 << len(m.shift)
-    return RG(StreamInst("Shifter(%d)" % dw, m, "shifter %d" % dw, tokens=tokens or toks(dw),
-                         extra_inputs=[m.shift], extra_alphabet=[(s,) for s in range(nsh)],
-                         spec=lambda: L.ShifterScoreboard(dw)))
+    nsh = 1 << max(1, (dw - 1).bit_length())     # from the constructor argument (shift = Signal(max=dw))
+    return DW(RG(StreamInst("Shifter(%d)" % dw, m, "shifter %d" % dw, tokens=tokens or toks(dw),
+                            extra_inputs=[m.shift], extra_alphabet=[(s,) for s in range(nsh)],
+                            spec=lambda: L.ShifterScoreboard(dw))), dw, [nsh])
 
 
 def mk_bufferized_up(r, nb, rev, tokens=None):
     cls = stream.BufferizeEndpoints({"sink": stream.DIR_SINK, "source": stream.DIR_SOURCE})(stream._UpConverter)
     m = cls(nb, nb * r, r, rev)
-    return RG(StreamInst("BufferizeEndpoints(_UpConverter(%d->%d))" % (nb, nb * r), m,
-                         "bufferized_up %d %d %d" % (r, nb, b(rev)), tokens=tokens or toks(nb),
-                         spec=lambda: L.UpScoreboard(r, nb, 0, rev, vtc=True, max_words=3)))
+    return DW(RG(StreamInst("BufferizeEndpoints(_UpConverter(%d->%d))" % (nb, nb * r), m,
+                            "bufferized_up %d %d %d" % (r, nb, b(rev)), tokens=tokens or toks(nb),
+                            spec=lambda: L.UpScoreboard(r, nb, 0, rev, vtc=True, max_words=3))), nb)
 
 
 def jobs(tier):
@@ -205,8 +205,8 @@ def jobs(tier):
 
     # ---- routing
     for n in (1, 2, 3):
-        A(lambda n=n: L.MuxInst("Multiplexer(%d)" % n, stream.Multiplexer(L1, n), n))
-        A(lambda n=n: L.DemuxInst("Demultiplexer(%d)" % n, stream.Demultiplexer(L1, n), n))
+        A(lambda n=n: L.MuxInst("Multiplexer(%d)" % n, stream.Multiplexer(L1, n), n, nb=1))
+        A(lambda n=n: L.DemuxInst("Demultiplexer(%d)" % n, stream.Demultiplexer(L1, n), n, nb=1))
     for srd in (False, True):
         A(lambda srd=srd: mk_gate(1, srd))
 
@@ -248,8 +248,11 @@ def jobs(tier):
                         (8, 16, True), (4, 16, False)) + \
             (() if quick else ((10, 8, False), (8, 10, True), (64, 66, False), (32, 20, False), (9, 7, True))):
         B(lambda i=i, o=o, msb=msb: mk_gearbox(i, o, msb))
-    B(lambda: L.MuxInst("Multiplexer(3)/8b", stream.Multiplexer(L8, 3), 3))
-    B(lambda: L.DemuxInst("Demultiplexer(3)/8b", stream.Demultiplexer(L8, 3), 3))
+    B(lambda: L.MuxInst("Multiplexer(3)/8b", stream.Multiplexer(L8, 3), 3, nb=8))
+    B(lambda: L.DemuxInst("Demultiplexer(3)/8b", stream.Demultiplexer(L8, 3), 3, nb=8))
+    for n in (5, 9):      # 2^k + 1 ways: the top selector value needs the full documented selector width
+        B(lambda n=n: L.MuxInst("Multiplexer(%d)/8b" % n, stream.Multiplexer(L8, n), n, nb=8))
+        B(lambda n=n: L.DemuxInst("Demultiplexer(%d)/8b" % n, stream.Demultiplexer(L8, n), n, nb=8))
     B(lambda: mk_gate(32, False))
     B(lambda: mk_gate(8, True))
     B(lambda: mk_delay(32, 3))
@@ -264,7 +267,9 @@ def jobs(tier):
 MAKERS = {"up": lambda *a: mk_up(*a), "down": lambda *a: mk_down(*a), "pack": lambda *a: mk_pack(*a),
           "unpack": lambda *a: mk_unpack(*a), "stride": lambda *a: mk_stride(*a),
           "gearbox": lambda *a: mk_gearbox(*a), "gate": lambda *a: mk_gate(*a), "delay": lambda *a: mk_delay(*a),
-          "shifter": lambda *a: mk_shifter(*a)}
+          "shifter": lambda *a: mk_shifter(*a),
+          "mux": lambda n: L.MuxInst("Multiplexer(%d)" % n, stream.Multiplexer(L1, n), n, nb=1),
+          "demux": lambda n: L.DemuxInst("Demultiplexer(%d)" % n, stream.Demultiplexer(L1, n), n, nb=1)}
 
 
 def corpus(ctx):
